@@ -50,6 +50,7 @@ class Parameters:
         \newcommand{\l}{ł}
         \newcommand{\label}[1]{}
         \newcommand{\LaTeX}{LaTeX}
+        \newcommand{\left}[1]{}
         \newcommand{\newline}{ }
         \newcommand{\nobreakspace}{~}
         \newcommand{\O}{Ø}
@@ -65,6 +66,7 @@ class Parameters:
         \newcommand{\qquad}{\;}
         \newcommand{\quad}{\;}
         \newcommand{\ref}[1]{0}
+        \newcommand{\right}[1]{}
         \newcommand{\S}{§}
         \newcommand{\ss}{ß}
         \newcommand{\TeX}{TeX}
